@@ -957,6 +957,10 @@ def gen_bundle(g, dv, weights, width=None):
       ts = tables_of(dv, a)
       if ts & schema_touched:
         continue
+      if not g.cfg.get("mix_summary_ops") and names and (
+          n in SUMMARY_OPS or any(nm in SUMMARY_OPS for nm in names)):
+        # summary (re)grouping shares a bundle with nothing else (finding F-s)
+        continue
       if n in SUMMARY_OPS and ts & all_touched:
         continue
       if n not in RECORD_OPS and n not in SUMMARY_OPS and any(
